@@ -4,4 +4,5 @@ let table : (string * (z list -> z list)) list = [
   ("logix", run_logix);
   ("tnet", run_tnet);
   ("route", run_route);
+  ("dotdict", run_dotdict);
 ]
